@@ -112,6 +112,14 @@ func filesD(rev int) *vschema.File {
 	}}
 }
 
+// fileT is the service of the per-worker back-end "bt", which histories can
+// take down (its process stops; the connection stays registered).
+func fileT() *vschema.File {
+	return &vschema.File{Path: "vf/rst.proto", Pkg: "vf.rs", Services: []vschema.Service{
+		{Name: "T", Methods: []vschema.Method{{Name: "Get", In: "vf.Req", Out: "vf.Rsp", Rule: get("/rs/t/{a}")}}},
+	}}
+}
+
 // serviceConfig adds routes through ServiceConfigOption: they belong to the
 // method like its annotations, whoever serves it.
 func serviceConfig() *serviceconfig.Service {
@@ -164,7 +172,7 @@ type Env struct {
 	Files   *protoregistry.Files // for the local service
 }
 
-var svcOf = map[string]string{"b1": "A", "b2": "A", "b4": "A", "b3": "B", "b3x": "B", "bc": "C", "local": "A", "bd": "D", "bd2": "D"}
+var svcOf = map[string]string{"b1": "A", "b2": "A", "b4": "A", "b3": "B", "b3x": "B", "bc": "C", "local": "A", "bd": "D", "bd2": "D", "bt": "T"}
 
 // tagOf is the tag the provider's replies carry: b3x is another connection
 // to the server behind b3.
@@ -257,6 +265,21 @@ type Worker struct {
 	fdD [4]protoreflect.FileDescriptor
 	// bd2 is a replica of bd that always serves revision 1
 	bd2 *be.Backend
+	// bt can be taken down by a history (Kill); it is replaced by a fresh
+	// one before the next history
+	bt     *be.Backend
+	btDead bool
+	fdT    protoreflect.FileDescriptor
+}
+
+func (w *Worker) startT() error {
+	if w.bt != nil {
+		w.bt.Close()
+	}
+	var err error
+	w.bt, err = be.Start("bt", true, be.Svc{SD: w.fdT.Services().Get(0), Impl: tagged{"bt"}})
+	w.btDead = false
+	return err
 }
 
 // ServeHTTP forwards to the current Mux. A panic is recorded for the history
@@ -305,6 +328,14 @@ func NewWorker(e *Env) (*Worker, error) {
 		w.Close()
 		return nil, err
 	}
+	if w.fdT, err = fileT().Build(); err != nil {
+		w.Close()
+		return nil, err
+	}
+	if err = w.startT(); err != nil {
+		w.Close()
+		return nil, err
+	}
 	if w.bd2, err = be.Start("bd2", true, be.Svc{SD: w.fdD[1].Services().Get(0), Impl: tagged{"bd2"}}, be.Svc{SD: w.fdD[1].Services().Get(1), Impl: tagged{"bd2"}}); err != nil {
 		w.Close()
 		return nil, err
@@ -318,6 +349,9 @@ func (w *Worker) Close() {
 	}
 	if w.bd2 != nil {
 		w.bd2.Close()
+	}
+	if w.bt != nil {
+		w.bt.Close()
 	}
 	w.cc.Close()
 	w.hc.CloseIdleConnections()
